@@ -32,6 +32,7 @@ var fsKinds = []string{"undefined", "null", "boolean", "number", "string", "obje
 	"nonext_string_fffd", "nonext_array", "nonext_args", "sealed_fn", "frozen_string_wide", "nonext_date", "nonext_regexp",
 	"go_slice", "go_map", "go_struct", "go_array", "go_ptr_struct", "go_slice_iface", "go_func", "go_nil_slice", "go_map_int", "go_ptr_array", "go_ptr_array_iface",
 	"go_chan", "go_complex", "go_nil_ptr", "go_typed_nil", "go_ptr_ptr", "go_variadic", "go_func_err", "go_func_value", "go_uint8_slice", "go_time", "go_nested", "go_bytes_array", "go_method_ptr",
+	"inf_length", "nan_length", "frac_length", "str_length", "regexp_stale", "regexp_stale_sticky",
 	"go_map_named_key", "go_map_iface_key", "go_map_struct_key", "go_nil_embedded", "go_func_named_int", "go_func_named_map", "go_named_float32", "go_map_nan_key", "go_named_string", "go_named_slice"}
 
 // kinds used when two positions vary together (the full product of all kinds
@@ -74,6 +75,12 @@ function __mk(kind){
   case 'date_invalid': return new Date(NaN);
   case 'string_obj': return new String('xyz');
   case 'neg_length': return {length:-1,0:'a'};
+  case 'inf_length': return {length:Infinity,0:'a',1:'b'};
+  case 'nan_length': return {length:NaN,0:'a'};
+  case 'frac_length': return {length:2.5,0:'a',1:'b',2:'c'};
+  case 'str_length': return {length:'2',0:'a',1:'b'};
+  case 'regexp_stale': var rs=/a/g; rs.lastIndex=1000; return rs;
+  case 'regexp_stale_sticky': var rt=/(a)|b/gi; rt.test('xxxxxxxxxxxxxxxxxxxxxxxxxxxxxxxxxxxxxxxa'); return rt;
   case 'args': return (function(){return arguments})(1,'b');
   case 'frozen_array': return Object.freeze([1,2]);
   case 'sparse': var sp=[1,,3]; sp[7]=1; return sp;
@@ -1427,6 +1434,7 @@ func (fsEngine) Enumerate(tier string) []interface{} {
 	}
 	out = append(out, &FSCase{Engine: "faultsweep", Fault: "oomprobe", Path: "Array.prototype.toLocaleString", Recv: "neg_length", Args: []string{}})
 	out = append(out, &FSCase{Engine: "faultsweep", Fault: "oomprobe", Path: "Array.prototype.join", Recv: "neg_length", Args: []string{}})
+	out = append(out, &FSCase{Engine: "faultsweep", Fault: "oomprobe", Path: "Function.prototype.apply", Recv: "function", Args: []string{"null", "neg_length"}})
 	for _, p := range recursionProgs {
 		for _, L := range []int{2, 3, 5, 9, 33, 200} {
 			out = append(out, &FSCase{Engine: "faultsweep", Prog: p, K: L})
